@@ -5,6 +5,8 @@ Driver.Sevm — runs the Model.Sevm exploration core on a program (one reply per
       nargs  : number of symbolic 32-byte calldata words a0.. after a 4-byte concrete selector 12345678
       oracle : unknown | sat      (what the solver behind Path.check answers to every query; both are OracleSound)
    -> ends=<kind@pc,…|-> bounded=<n> depthcut=<0|1> fuelout=<0|1>
+  steps <codehex> <nargs> <loop> <fuel> <oracle>
+   -> steps=<n>   iterations of the worklist loop of the whole run without a --depth limit (0: fuel exhausted)
       kind: success revert invalidOpcode invalidJump stackUnderflow … | stuck:<reason> ; a trailing `!` marks the
       tagged (knowingly unfaithful) jumpi-invalid-destination site
 -/
@@ -96,6 +98,26 @@ def handle (line : String) : String :=
       let e := if ends.isEmpty then "-" else ",".intercalate ends
       s!"ends={e} bounded={res.boundedLoops.length} depthcut={if res.depthCut then 1 else 0} fuelout={if res.outOfFuel then 1 else 0}"
     | _, _, _, _, _ => "bad-op"
+  | ["steps", code, nargs, loop, fuel, orc] =>
+    -- the number of iterations of the worklist loop of the whole run (0 when the fuel does not suffice): the least
+    -- `--depth` under which nothing is cut, found by doubling and bisection
+    match hexBytes? code, nargs.toNat?, loop.toNat?, fuel.toNat? with
+    | some code, some nargs, some loop, some fuel =>
+      let o : Oracle := fun _ _ => if orc = "sat" then .sat else .unknown
+      let res0 := run drvSimp o { loop, depth := 0 } (mkEnv nargs) code fuel
+      if res0.outOfFuel then "steps=0" else
+      let cut (d : Nat) : Bool := (run drvSimp o { loop, depth := d } (mkEnv nargs) code fuel).depthCut
+      let rec up (d : Nat) : Nat → Nat
+        | 0 => d
+        | k + 1 => if cut d then up (2 * d) k else d
+      let hi := up 1 40
+      let rec bs (lo hi : Nat) : Nat → Nat
+        | 0 => hi
+        | k + 1 => if lo + 1 ≥ hi then hi else
+            let m := (lo + hi) / 2
+            if cut m then bs m hi k else bs lo m k
+      s!"steps={bs (hi / 2) hi 64}"
+    | _, _, _, _ => "bad-op"
   | _ => "bad-op"
 
 partial def loop (h : IO.FS.Stream) : IO Unit := do
